@@ -924,20 +924,29 @@ func c12LocalWant(c *vt.Ctx, w *c12World, nc *rpc.NetConf) *c12Want {
 	return nil
 }
 
-func c12CheckReply(c *vt.Ctx, w *c12World, reply *rpc.AllocIPReply) {
+// c12AnyReply is the part AllocIPReply and GetInfoReply have in common.
+type c12AnyReply interface {
+	GetSuccess() bool
+	GetIPType() rpc.IPType
+	GetNetConfs() []*rpc.NetConf
+}
+
+// c12CheckReply is the daemon-side oracle; it is applied to every configuration the
+// daemon returns for the pod: the ADD reply and the GetIPInfo reply (CHECK / DEL).
+func c12CheckReply(c *vt.Ctx, w *c12World, rpcName string, reply c12AnyReply) {
 	if !reply.GetSuccess() {
-		c.Fatalf("AllocIP returned no error and Success=false")
+		c.Fatalf("%s returned no error and Success=false", rpcName)
 	}
 	ncs := reply.GetNetConfs()
 	if len(ncs) == 0 {
-		c.Fatalf("successful AllocIP reply carries no network configuration")
+		c.Fatalf("successful %s reply carries no network configuration", rpcName)
 	}
 	wantType := rpc.IPType_TypeENIMultiIP
 	if w.Kind == c12KLocalEO || w.Kind == c12KTrunkEO {
 		wantType = rpc.IPType_TypeVPCENI
 	}
 	if reply.GetIPType() != wantType {
-		c.Fatalf("reply IPType %s, daemon mode implies %s", reply.GetIPType(), wantType)
+		c.Fatalf("%s reply IPType %s, daemon mode implies %s", rpcName, reply.GetIPType(), wantType)
 	}
 	defaults, primaries := 0, 0
 	for _, nc := range ncs {
@@ -949,13 +958,13 @@ func c12CheckReply(c *vt.Ctx, w *c12World, reply *rpc.AllocIPReply) {
 		}
 	}
 	if defaults != 1 {
-		c.Fatalf("reply names %d default-route interfaces, want exactly 1: %v", defaults, ncs)
+		c.Fatalf("%s reply names %d default-route interfaces, want exactly 1: %v", rpcName, defaults, ncs)
 	}
 	if primaries < 1 {
-		c.Fatalf("reply does not include the primary interface: %v", ncs)
+		c.Fatalf("%s reply does not include the primary interface: %v", rpcName, ncs)
 	}
 	for _, nc := range ncs {
-		if nc.GetDefaultRoute() {
+		if nc.GetDefaultRoute() && rpcName == "AllocIP" {
 			if nc.GetIfName() == "" || nc.GetIfName() == "eth0" {
 				c.Label("default-on-primary")
 			} else {
@@ -968,7 +977,7 @@ func c12CheckReply(c *vt.Ctx, w *c12World, reply *rpc.AllocIPReply) {
 	switch {
 	case w.podENI():
 		if len(ncs) != len(w.Allocs) {
-			c.Fatalf("PodENI has %d allocations, reply has %d configurations", len(w.Allocs), len(ncs))
+			c.Fatalf("PodENI has %d allocations, %s reply has %d configurations", len(w.Allocs), rpcName, len(ncs))
 		}
 		byName := map[string]*c12Alloc{}
 		for i := range w.Allocs {
@@ -1016,7 +1025,7 @@ func c12CheckReply(c *vt.Ctx, w *c12World, reply *rpc.AllocIPReply) {
 
 	for i, nc := range ncs {
 		wn := wants[i]
-		what := fmt.Sprintf("NetConf[%d] if=%q", i, nc.GetIfName())
+		what := fmt.Sprintf("%s NetConf[%d] if=%q", rpcName, i, nc.GetIfName())
 		bi := nc.GetBasicInfo()
 		if bi == nil || bi.GetPodIP() == nil {
 			c.Fatalf("%s: no address information", what)
@@ -1315,8 +1324,34 @@ func c12RunWorld(c *vt.Ctx, w c12World) {
 			// a success is acceptable only if the reply is repaired; the checks below decide
 			c.Label("accepted-malformed")
 		}
-		c12CheckReply(c, &w, reply)
+		c12CheckReply(c, &w, "AllocIP", reply)
 		c.Labelf("netconfs:%d", min(len(reply.NetConfs), 4))
+
+		// what the daemon answers for the same pod and sandbox from now on (CNI CHECK and
+		// DEL ask GetIPInfo): a configuration returned for the pod like the ADD reply, so
+		// the same oracle applies, and it must be the configuration the ADD answered
+		gctx, gcancel := context.WithTimeout(context.Background(), 20*time.Second)
+		info, gerr := live.svc.GetIPInfo(gctx, &rpc.GetInfoRequest{
+			K8SPodName: w.Pod.Name, K8SPodNamespace: w.Pod.NS, K8SPodInfraContainerId: args.ContainerID,
+		})
+		gTimedOut := gctx.Err() != nil
+		gcancel()
+		c.Trace("round %d: GetIPInfo -> %v err=%v", round, info, gerr)
+		if gerr != nil {
+			if gTimedOut {
+				c.Inconclusive("GetIPInfo deadline")
+			}
+			c.Fatalf("GetIPInfo failed right after a successful ADD of the same sandbox: %v", gerr)
+		}
+		c12CheckReply(c, &w, "GetIPInfo", info)
+		if len(info.GetNetConfs()) != len(reply.GetNetConfs()) {
+			c.Fatalf("GetIPInfo returns %d configurations, the ADD answered %d", len(info.GetNetConfs()), len(reply.GetNetConfs()))
+		}
+		for i := range reply.GetNetConfs() {
+			if !proto.Equal(info.GetNetConfs()[i], reply.GetNetConfs()[i]) {
+				c.Fatalf("GetIPInfo NetConf[%d] = %v, the ADD answered %v", i, info.GetNetConfs()[i], reply.GetNetConfs()[i])
+			}
+		}
 
 		// the wire
 		b, err := proto.Marshal(reply)
